@@ -244,9 +244,11 @@ def price_of(i: int) -> float:
 
 
 def ref_prices(seq, family: str, step: int, start: int, nsteps: int):
-    """per step: (station, plug) -> set of admissible prices.  Rows that become due in the same step and name the
-    same station through *different* keys (overlapping regions) may be applied in either order -- the statement
-    does not say which wins -- so both prices are admissible; rows with the same key apply in file order."""
+    """per step: (station, plug) -> set of admissible prices (one element).  Every row takes effect in the first step that
+    begins after its time stamp; rows that become due in the same step take effect in the order of the (time-sorted) file,
+    whichever keys -- station ids, overlapping regions -- they name the station through: the price in force afterwards is
+    that of the LATEST row, so that the outcome does not depend on the step length.  (Round 1 admitted either order
+    across different keys; wave 6 showed that this let a step-length dependent outcome pass.)"""
     _, cells, plugs, _ = price_world()
     cur = {(s, p): {0.0} for s, ps in plugs.items() for p in ps}
     applied = [False] * len(seq)
@@ -265,7 +267,7 @@ def ref_prices(seq, family: str, step: int, start: int, nsteps: int):
                 sts = [s for s, g in cells.items() if h3.h3_to_parent(g, res) == tg]
             for s in sts:
                 if (s, plug) in cur:
-                    due.setdefault((s, plug), {})[tg] = price  # same key: the later row wins
+                    due[(s, plug)] = {"latest": price}  # file order: the later row wins, whatever key it came through
         for key, by_target in due.items():
             cur[key] = set(by_target.values())
         out.append({k2: set(v) for k2, v in cur.items()})
